@@ -172,6 +172,19 @@ CHECKS["C04"] = dict(
     note="Trusted: TLC, stdlib hmac/hashlib (oracle answers recorded by a shim placed in ecdsa.rfc6979's namespace at run time).",
     technique="TLC trace validation (C->S) of recorded HMAC-call traces against the RFC 6979 state machine",
     ref="3/C04")
+CHECKS["C17"] = dict(
+    text="Randrange.tla defines the exact rejection sampler (chunk of b div 8 + 1 bytes, top b = bitlen(n-2) bits + 1, accept iff < n) "
+         "on byte sequences. TLC proves the Uniform theorem (accepted candidates map one-to-one onto [1, n-1], >= half accepted) for "
+         "all n <= 600 (4200 thorough). Conformance: for every order 2..130 (+ 2-byte-chunk orders) randrange is run on EVERY "
+         "first-chunk value and TLC requires each v in [1, n-1] to occur with multiplicity 2^(8B-b) exactly; draws on 17 curve orders "
+         "and awkward orders with adversarial streams, generated private keys and signing nonces (recovered from r, s, e, d) are "
+         "replayed by TLC from the recorded entropy requests (right chunk size, stops at the first acceptable chunk, value is the "
+         "function of the bytes); same stream => same key and signatures; seed helpers in range, repeatable, and independent of call "
+         "history (fresh interpreters, two call orders).",
+    note="Trusted: TLC, CPython arithmetic for nonce recovery. Known finding: util.randrange_from_seed__truncate_bytes/_bits cannot "
+         "be called on Python 3.",
+    technique="TLC model checking (Uniform theorem) + TLC trace validation (C->S) of recorded entropy requests incl. exhaustive output distributions",
+    ref="3/C17")
 NOT_YET = {}
 
 
